@@ -307,6 +307,12 @@ static void run_history(History& h, Rng& r) {
         ++C[C_drv_flow];
     } else {
         switch (h.ctor) { case 0: own.reset(new AckTracker(h.isn)); break; case 1: own.reset(new AckTracker(h.isn, true)); break; case 2: own.reset(new AckTracker(h.isn, false)); break; default: own.reset(new AckTracker()); }
+        // the tracker is a value type (Flow assigns a freshly built one on the handshake): half of the histories run on one that was copied or moved into place
+        switch (r.below(8)) { case 0: { AckTracker t2(*own); own.reset(new AckTracker(t2)); cnt("tracker:copy-constructed"); break; }
+            case 1: { std::unique_ptr<AckTracker> t2(new AckTracker()); *t2 = *own; own = std::move(t2); cnt("tracker:copy-assigned"); break; }
+            case 2: { std::unique_ptr<AckTracker> t2(new AckTracker(7, false)); *t2 = AckTracker(*own); own = std::move(t2); cnt("tracker:move-assigned"); break; }
+            case 3: { AckTracker t2(*own); own.reset(new AckTracker(std::move(t2))); cnt("tracker:move-constructed"); break; }
+            default: break; }
         ++C[C_drv_direct]; if (h.ctor >= 2) ++C[C_drv_nosack];
     }
     if ((u64)h.isn + h.n > 0xffffffffULL) ++C[C_h_wrap];
